@@ -109,12 +109,12 @@ Proof.
 Qed.
 
 Definition pe_attr (r : raw) (a : attr) : attr :=
-  if existsb (fun e => negb (evalid (zlen (vertices r)) e)) (edges r)
+  if edges_dropped (zlen (vertices r)) (edges r)
   then reindex (kept_idx (zlen (vertices r)) (edges r)) a else a.
 
 Lemma pe_eattrs r : eattrs (prepare_edges r) = amap (pe_attr r) (eattrs r).
 Proof.
-  unfold prepare_edges, pe_attr, amap. destruct (existsb _ (edges r)); cbn; [reflexivity|].
+  unfold prepare_edges, pe_attr, amap. destruct (edges_dropped _ (edges r)); cbn; [reflexivity|].
   symmetry. apply map_id_in. now intros [n a] _.
 Qed.
 
@@ -151,10 +151,10 @@ Lemma pe_attr_get c r a j i :
   attr_get (pe_attr (stage2 c r) a) (Z.of_nat j) = attr_get a i.
 Proof.
   intros H. unfold pe_attr. rewrite stage2_nverts, stage2_edges.
-  destruct (existsb _ (edges r ++ added_edges c r)) eqn:E.
+  destruct (edges_dropped _ (edges r ++ added_edges c r)) eqn:E.
   - apply reindex_get. now apply kept_prefix.
-  - apply existsb_app_false in E. unfold kept_idx in H. rewrite (kept_from_all _ _ _ E) in H.
-    apply enum_from_fst_nth in H. now subst.
+  - apply edges_dropped_false, sel_from_full_app in E. unfold kept_idx in H.
+    rewrite (proj2 (sel_from_full _ _ _ E)) in H. apply enum_from_fst_nth in H. now subst.
 Qed.
 
 Theorem attrs_thm c r r' : prepare c r = Ok r' ->
@@ -169,29 +169,30 @@ Proof.
   - exists (pe_attr (stage2 c r) (attr_expand (length (added_edges c r)) a)). split.
     + apply amap_nth, amap_nth. now apply with_hard_nth.
     + split.
-      * unfold pe_attr. destruct (existsb _ _); now rewrite ?attr_default_reindex, attr_default_expand.
+      * unfold pe_attr. destruct (edges_dropped _ _); now rewrite ?attr_default_reindex, attr_default_expand.
       * intros j i Hji. rewrite (pe_attr_get c r _ j i Hji). apply attr_get_expand.
   - exists (pe_attr (stage2 c r) a). split; [now apply amap_nth|]. split.
-    + unfold pe_attr. destruct (existsb _ _); reflexivity.
+    + unfold pe_attr. destruct (edges_dropped _ _); reflexivity.
     + intros j i Hji. apply (pe_attr_get c r _ j i Hji).
 Qed.
 
 (* the surviving declared edges are exactly the first ones of the final list, in order *)
-Lemma kept_idx_survivors N E : map (fun i => kedge (znth E i (0, 0))) (kept_idx N E) = filter (evalid N) (map kedge E).
+Lemma kept_idx_survivors N E : map (fun i => kedge (znth E i (0, 0))) (kept_idx N E) = norm_edges N E.
 Proof.
-  unfold kept_idx. rewrite filter_map_comm.
-  rewrite (filter_ext_in' (fun x => evalid N (kedge x)) (evalid N)) by (intros; apply evalid_kedge).
-  assert (G : forall s pre, zlen pre = s ->
-            map (fun i => kedge (znth (pre ++ E) i (0, 0))) (kept_from N s E) = map kedge (filter (evalid N) E)).
-  { induction E as [|e t IH]; intros s pre Hs; cbn; [reflexivity|].
+  unfold kept_idx, norm_edges. rewrite <- sel_from_spec.
+  assert (G : forall seen s pre, zlen pre = s ->
+            map (fun i => kedge (znth (pre ++ E) i (0, 0))) (kept_from N seen s E) = map kedge (sel_from N seen E)).
+  { induction E as [|e t IH]; intros seen s pre Hs; cbn; [reflexivity|].
     assert (Hn : znth (pre ++ e :: t) s (0, 0) = e).
     { unfold znth. pose proof (zlen_nonneg pre). destruct (s <? 0) eqn:E0; [lia|].
       rewrite app_nth2 by (unfold zlen in Hs; lia). replace (Z.to_nat s - length pre)%nat with 0%nat by (unfold zlen in Hs; lia).
       reflexivity. }
-    specialize (IH (s + 1) (pre ++ [e])). rewrite <- app_assoc in IH. cbn [app] in IH.
-    assert (IH' := IH ltac:(rewrite zlen_app; unfold zlen in *; cbn [length]; lia)).
-    destruct (evalid N e); cbn [map]; [rewrite Hn|]; rewrite IH'; reflexivity. }
-  apply (G 0 []). reflexivity.
+    assert (IH' : forall seen', map (fun i => kedge (znth (pre ++ e :: t) i (0, 0))) (kept_from N seen' (s + 1) t)
+                              = map kedge (sel_from N seen' t)).
+    { intros seen'. specialize (IH seen' (s + 1) (pre ++ [e])). rewrite <- app_assoc in IH. cbn [app] in IH.
+      apply IH. rewrite zlen_app; unfold zlen in *; cbn [length]; lia. }
+    destruct (ekeep N seen e); cbn [map]; [rewrite Hn|]; rewrite IH'; reflexivity. }
+  apply (G [] 0 []). reflexivity.
 Qed.
 
 (* ------------------------------------------------------------ hard edges *)
@@ -218,7 +219,7 @@ Proof.
 Qed.
 
 Theorem hard_edges_thm c r r' : prepare c r = Ok r' -> attr_lookup HARD (eattrs r) = None ->
-  let nd := zlen (filter (evalid (zlen (vertices r))) (map kedge (edges r))) in
+  let nd := zlen (norm_edges (zlen (vertices r)) (edges r)) in
   (snd c = true -> faces r' <> [] ->
      exists h, attr_lookup HARD (eattrs r') = Some h /\
                forall j, 0 <= j < zlen (edges r') -> (attr_get h j = 1 <-> j < nd) /\ (attr_get h j = 0 <-> nd <= j))
@@ -233,28 +234,28 @@ Proof.
     fold (hard_attr (zlen (edges r))).
     eexists. split; [reflexivity|]. intros j Hj.
     set (N := zlen (vertices r)) in *. set (E := edges r) in *. set (A := added_edges c r) in *.
-    assert (Hnd : nd = Z.of_nat (length (kept_from N 0 E))).
-    { unfold nd, zlen. now rewrite filter_kedge_length, kept_from_length. }
+    assert (Hnd : nd = Z.of_nat (length (kept_from N [] 0 E))).
+    { unfold nd, zlen, norm_edges. now rewrite <- sel_from_spec, map_length, kept_from_length. }
     unfold pe_attr. rewrite stage2_nverts, stage2_edges. fold N E A.
-    destruct (existsb _ (E ++ A)) eqn:Ex.
+    destruct (edges_dropped N (E ++ A)) eqn:Ex.
     + (* rebuilt *)
       assert (Hlen : zlen (edges r') = Z.of_nat (length (kept_idx N (E ++ A)))).
-      { rewrite He. unfold zlen, kept_idx. now rewrite filter_kedge_length, kept_from_length. }
+      { rewrite He. unfold zlen, kept_idx, norm_edges. now rewrite <- sel_from_spec, map_length, kept_from_length. }
       destruct (nth_error (kept_idx N (E ++ A)) (Z.to_nat j)) as [ie|] eqn:En;
         [|apply nth_error_None in En; lia].
       replace j with (Z.of_nat (Z.to_nat j)) at 1 3 by lia.
       rewrite (reindex_get _ _ _ _ En), hard_attr_get.
       unfold kept_idx in En. rewrite kept_from_app in En.
-      destruct (Nat.lt_ge_cases (Z.to_nat j) (length (kept_from N 0 E))) as [Hlt|Hge].
+      destruct (Nat.lt_ge_cases (Z.to_nat j) (length (kept_from N [] 0 E))) as [Hlt|Hge].
       * rewrite nth_error_app1 in En by assumption. apply nth_error_In, kept_from_bounds in En.
         replace ((0 <=? ie) && (ie <? zlen E)) with true by lia. split; split; intros; lia.
       * rewrite nth_error_app2 in En by assumption. apply nth_error_In, kept_from_bounds in En.
         replace ((0 <=? ie) && (ie <? zlen E)) with false by lia. split; split; intros; lia.
     + (* all valid *)
       rewrite hard_attr_get.
-      assert (HE : existsb (fun e => negb (evalid N e)) E = false) by (now apply existsb_app_false in Ex).
+      apply edges_dropped_false, sel_from_full_app in Ex.
       assert (Hall : nd = zlen E).
-      { rewrite Hnd, (kept_from_all _ _ _ HE), map_length, enum_from_length. reflexivity. }
+      { rewrite Hnd, (proj2 (sel_from_full _ _ _ Ex)), map_length, enum_from_length. reflexivity. }
       destruct ((0 <=? j) && (j <? zlen E)) eqn:B; split; split; intros; lia.
   - intros Hor. assert (Hb : snd c && nonempty (faces r') = false).
     { destruct Hor as [->| ->]; [reflexivity | apply andb_false_r]. }
